@@ -411,6 +411,7 @@ class DoneObligation:
         self.seconds, self.ground, self.error, self.key = r['seconds'], r['ground'], r['error'], r['key']
         self.meta = {'soft': r['soft'], 'replay': r['replay'], 'fallback_payloads': None}
         self._smt = r['smt']
+        self.assume = []          # decided in a partition child: nothing left to guard here (the child adds its own twins)
 
     @property
     def holds(self):
